@@ -21,7 +21,10 @@
 (* K (keyword argument k=..), L (spread of a list with n elements),        *)
 (* D (spread of a dict with the keys ks).  The j-th value that the call    *)
 (* supplies, counted left to right after spreading, is the integer j, so a *)
-(* case is fully described by its shape.                                   *)
+(* case is fully described by its shape.  A K item may carry fv = TRUE:    *)
+(* its value is written as a template variable whose name is also one of   *)
+(* the tag's flags (`key=required` on a tag with allowed_flags=[required]);*)
+(* it is an ordinary keyword argument and binds like any other.            *)
 (*                                                                         *)
 (* The machine:  Declare(p)* ; Pass(item)* .  After every Pass the binder  *)
 (* state b holds the slots filled so far; Outcome(sig, b) is what Python   *)
@@ -68,14 +71,16 @@ KwTarget(sig, key) ==
   IN  IF S = {} THEN 0 ELSE CHOOSE i \in S : TRUE
 
 (* ---- call items --------------------------------------------------------- *)
-ItemP     == [t |-> "P", k |-> "", n |-> 0, ks |-> <<>>]
-ItemK(k)  == [t |-> "K", k |-> k, n |-> 0, ks |-> <<>>]
-ItemL(n)  == [t |-> "L", k |-> "", n |-> n, ks |-> <<>>]
-ItemD(ks) == [t |-> "D", k |-> "", n |-> 0, ks |-> ks]
+ItemP     == [t |-> "P", k |-> "", n |-> 0, ks |-> <<>>, fv |-> FALSE]
+ItemK(k)  == [t |-> "K", k |-> k, n |-> 0, ks |-> <<>>, fv |-> FALSE]
+ItemKF(k) == [t |-> "K", k |-> k, n |-> 0, ks |-> <<>>, fv |-> TRUE]
+ItemL(n)  == [t |-> "L", k |-> "", n |-> n, ks |-> <<>>, fv |-> FALSE]
+ItemD(ks) == [t |-> "D", k |-> "", n |-> 0, ks |-> ks, fv |-> FALSE]
 
 WellFormedItem(it) ==
   /\ it.t \in {"P", "K", "L", "D"}
   /\ it.t = "K" => it.k # ""
+  /\ it.fv \in BOOLEAN /\ (it.fv => it.t = "K")
   /\ it.t = "D" => \A i, j \in DOMAIN it.ks : i # j => it.ks[i] # it.ks[j]   \* a dict has distinct keys
 
 (* ---- binder state -------------------------------------------------------- *)
@@ -171,10 +176,10 @@ SameOutcome(x, y) ==
 (* ---- the same relation, declaratively ------------------------------------ *)
 \* the arguments one item contributes, numbered from v0+1; s = produced by a spread
 ItemElems(it, v0) ==
-  CASE it.t = "P" -> << [k |-> "", v |-> v0 + 1, s |-> FALSE] >>
-    [] it.t = "K" -> << [k |-> it.k, v |-> v0 + 1, s |-> FALSE] >>
-    [] it.t = "L" -> [j \in 1..it.n |-> [k |-> "", v |-> v0 + j, s |-> TRUE]]
-    [] it.t = "D" -> [j \in 1..Len(it.ks) |-> [k |-> it.ks[j], v |-> v0 + j, s |-> TRUE]]
+  CASE it.t = "P" -> << [k |-> "", v |-> v0 + 1, s |-> FALSE, fv |-> FALSE] >>
+    [] it.t = "K" -> << [k |-> it.k, v |-> v0 + 1, s |-> FALSE, fv |-> it.fv] >>
+    [] it.t = "L" -> [j \in 1..it.n |-> [k |-> "", v |-> v0 + j, s |-> TRUE, fv |-> FALSE]]
+    [] it.t = "D" -> [j \in 1..Len(it.ks) |-> [k |-> it.ks[j], v |-> v0 + j, s |-> TRUE, fv |-> FALSE]]
 RECURSIVE FlatR(_, _)
 FlatR(call, n) == IF n = 0 THEN <<>>
                   ELSE LET f == FlatR(call, n - 1) IN f \o ItemElems(call[n], Len(f))
